@@ -546,6 +546,32 @@ impl Session {
                 ctx.push_node(id, Some(join.watch()));
                 ctx.push_node(id + 1, None);
             }
+            "xcell" => {
+                // the per-key node of incr_mapi_: an expert node reading a cell that its controlling map
+                // node (id + 1, over `in`) writes before calling make_stale
+                let id = ctx.next_id();
+                let input = self.node(a["in"].as_u64().unwrap() as usize);
+                let cell: Rc<RefCell<Option<Val>>> = Rc::new(RefCell::new(None));
+                let c2 = ctx.clone();
+                let node = expert::Node::<Val>::new(&ctx.ws, {
+                    let cell_ = cell.clone();
+                    move || {
+                        c2.with(|t| t.log.inv.push((id, vec![])));
+                        cell_.borrow().clone().unwrap()
+                    }
+                });
+                let node_ = node.weak();
+                let c3 = ctx.clone();
+                let ctl = input.map(move |x: &Val| {
+                    c3.with(|t| t.log.inv.push((id + 1, vec![x.to_json()])));
+                    cell.borrow_mut().replace(x.clone());
+                    node_.make_stale();
+                    Val::U
+                });
+                node.add_dependency(&ctl);
+                ctx.push_node(id, Some(node.watch()));
+                ctx.push_node(id + 1, Some(ctl));
+            }
             "xsum" => {
                 // dynamic sum of the first `sel` nodes of ins, kept up to date by edge callbacks
                 let id = ctx.next_id();
@@ -736,14 +762,20 @@ impl Session {
                 let want_norm = if want[0] == "ok" { json!(["ok", want[1]]) } else { want.clone() };
                 if got != want_norm {
                     let prop = if want[0] == "ok" && got[0] == "ok" {
-                        "C01"
+                        match e["rtags"].get(i).and_then(|t| t.as_str()) {
+                            Some("C14") => "C14",
+                            Some("C20") => "C20",
+                            _ => "C01",
+                        }
                     } else if want[1] == "ObservingInvalid" || got[1] == "ObservingInvalid" {
                         "C03"
                     } else {
                         "C10"
                     };
                     out.push(Mismatch { prop, step, what: format!("observer {} reads {got} expected {want_norm}", i + 1) });
-                    if want[0] == "err" && (want[1] == "NeverStabilised" || want[1] == "CurrentlyStabilising") {
+                    if prop == "C01"
+                        || (want[0] == "err" && (want[1] == "NeverStabilised" || want[1] == "CurrentlyStabilising"))
+                    {
                         out.push(Mismatch { prop: "C07", step, what: format!("observer {} reads {got} expected {want_norm}", i + 1) });
                     }
                 }
@@ -766,7 +798,8 @@ impl Session {
                 }
                 match want.get(n) {
                     None => {
-                        let prop = if in_cone(*n) { "C06" } else { "C05" };
+                        let stale = e["stale"].get(n - 1).and_then(|b| b.as_bool()).unwrap_or(false);
+                        let prop = if stale { "C03" } else if in_cone(*n) { "C06" } else { "C05" };
                         out.push(Mismatch { prop, step, what: format!("node {n} function ran with {:?} but no input changed / not needed", runs[0]) });
                     }
                     Some(w) => {
@@ -932,6 +965,22 @@ pub fn run_behaviour(hist: &[J], max_height: Option<usize>) -> Vec<Mismatch> {
                 }
                 _ => {
                     out.push(Mismatch { prop: if poisoned { "C13" } else { "C04" }, step: i, what: format!("action {a} panicked: {msg}") });
+                    // what ran before the panic is still judged against the prediction (C02)
+                    if let Some(e) = hist.get(i + 1).filter(|e| e["a"] == "expect") {
+                        let t = s.t.borrow();
+                        let mut seen: HashMap<usize, usize> = HashMap::new();
+                        for (n, args) in t.log.inv.iter() {
+                            *seen.entry(*n).or_default() += 1;
+                            if seen[n] > 1 {
+                                out.push(Mismatch { prop: "C02", step: i, what: format!("node {n} function ran more than once in one stabilise (then the stabilise panicked)") });
+                            }
+                            if let Some(w) = e["inv"].as_array().and_then(|v| v.iter().find(|w| w["n"].as_u64() == Some(*n as u64))) {
+                                if J::Array(args.clone()) != w["args"] {
+                                    out.push(Mismatch { prop: "C02", step: i, what: format!("node {n} ran with args {args:?}, final inputs are {} (then the stabilise panicked)", w["args"]) });
+                                }
+                            }
+                        }
+                    }
                     break;
                 }
             }
